@@ -7,8 +7,40 @@
    not yet covered by a theorem are decided by the implementation <-> specification <->
    hardware differential run only (listed as unproved_forms in the evidence). *)
 From Coq Require Import ZArith Bool List.
-From AxV Require Import Bits Outcome Codes Iced State Rt Mem Trace Exec ExecP FrameTac FrameP ISA CodeSem IsaP.
+From AxV Require Import Bits Outcome Codes Iced State Rt Mem Trace Exec ExecP FrameTac FrameP RegFile RegsP ISA CodeSem IsaP OperandP.
 From AxG Require Import Flags Regs Operand Helpers Dispatch Frame.
 Local Open Scope Z_scope.
 
+(* What the decoder guarantees about a memory operand (base, index: absent, RIP/EIP or a
+   64-/32-bit general register; RIP-relative operands have no index; scale and displacement in
+   range; a segment register) is [wf_mem_instr].  Under it, for every register file and every
+   operand position: the operand decoder yields the memory operand, its address is the ISA
+   specification's effective address [ea] - base + index*scale + displacement, truncated to 32
+   bits under an address-size override, plus the FS/GS base, modulo 2^64 - and LEA's offset
+   is the specification's [ea_offset] (no segment base).  Reading the address changes nothing.
+   Proved over the Gallina regenerated from helpers/operand.rs. *)
+Theorem C05_effective_address : forall c i k s,
+  wf_regs s -> wf_mem_instr i -> (k <? i_op_count i) = true -> i_op_kind i k = OK_Memory ->
+  instruction_operand c i k s = (Ok (OpMemory (memop_of i)), s) /\
+  mem_addr c (memop_of i) s = (Ok (ea i s), s) /\
+  mem_offset c (memop_of i) s = (Ok (ea_offset i s), s).
+Proof. exact operand_address. Qed.
+
+(* the same for any well-formed memory operand value, however obtained *)
+Theorem C05_mem_addr : forall c m s,
+  wf_regs s -> wf_memop m -> mem_addr c m s = (Ok (memop_ea m s), s).
+Proof. exact mem_addr_spec. Qed.
+
+(* non-vacuity: [rbx + rcx*4 - 8] with a GS override, and [ebx - 4] under an address-size override *)
+Example C05_example :
+  let s := set_gs (set_regs empty_state (upd (upd (regs empty_state) RBX 4096) RCX 3)) 65536 in
+  memop_ea {| mo_base := Some RBX; mo_index := Some RCX; mo_segment := Some SegGS; mo_scale := 4;
+              mo_displacement := 2 ^ 64 - 8 |} s = 4096 + 12 - 8 + 65536 /\
+  memop_ea {| mo_base := Some EBX; mo_index := None; mo_segment := None; mo_scale := 1;
+              mo_displacement := 2 ^ 64 - 4 |}
+           (set_regs empty_state (upd (regs empty_state) RBX (2 ^ 32 + 2))) = 2 ^ 32 - 2.
+Proof. split; vm_compute; reflexivity. Qed.
+
 Print Assumptions cond_matches_sdm.
+Print Assumptions C05_effective_address.
+Print Assumptions C05_mem_addr.
